@@ -4,7 +4,7 @@ import "context"
 
 //verif:witness H_C16_lifecycle end
 //verif:bound C16 quick every operation sequence of length 1..3 over {Refresh(valid sync cfg), Refresh(valid async cfg), Refresh(invalid, early failure), Refresh(invalid, late failure after rebinding), Destroy, log via tag, write via named handle, register tag, obtain handle} on the real package globals, real Refresh/Destroy through the reflect shim; worker scheduled at blocking points
-//verif:bound C16 thorough sequences of length 1..4
+//verif:bound C16 thorough sequences of length 1..5
 //verif:assume C16 after a Refresh that failed late (configured flag set, nothing registered for Destroy) the harness does not judge whether registration is refused; it does judge that logging neither panics nor blocks and that Destroy returns the system to the unconfigured state
 
 type vLife struct {
@@ -48,7 +48,7 @@ func H_C16_lifecycle() {
 	vOpt("preempt", 1)
 	maxLen := 3
 	if vTier() > 0 {
-		maxLen = 4
+		maxLen = 5
 	}
 	savedHandles := loggerMap
 	loggerMap = map[string]*LoggerWrapper{}
